@@ -48,6 +48,8 @@ type gtask struct {
 	wantOp  bool // picked next => enters the operation (state gInOp) rather than plain running
 	isMain  bool
 	bound   chan struct{}
+	waiting bool // polled a select without success: not worth picking before somebody else has run
+	waitGen int
 }
 
 var gs struct {
@@ -61,6 +63,7 @@ var gs struct {
 	draining *gtask
 	drainCh  chan struct{}
 	born     *gtask // created by Spawn(), not yet bound to its goroutine
+	gen      int    // number of hand-overs of the token so far
 	off      bool   // the scheduler is not used in this process (CLI child): goroutines run free
 }
 
@@ -76,6 +79,7 @@ var (
 	SchedForeign   int    // bracketed operations executed by goroutines the scheduler does not know
 	TaskPanic      string // a panic inside a started goroutine (would kill the real process)
 	SchedTrace     []string
+	SelectDeviated int // selects whose cases were polled in another than the source order
 	NumCPUOverride = []int{4, 1, 16}
 )
 
@@ -83,7 +87,7 @@ func resetSched() {
 	gs.mu.Lock()
 	gs.on, gs.gaveUp, gs.tasks, gs.holder, gs.draining, gs.born = false, false, nil, nil, nil, nil
 	gs.mu.Unlock()
-	SchedPicks, SchedDeviated, SchedTasks, SchedGaveUp, SchedForeign, TaskPanic, SchedTrace = 0, 0, 0, "", 0, "", nil
+	SchedPicks, SchedDeviated, SchedTasks, SchedGaveUp, SchedForeign, TaskPanic, SchedTrace, SelectDeviated = 0, 0, 0, "", 0, "", nil, 0
 }
 
 // NumCPU replaces runtime.NumCPU() and runtime.GOMAXPROCS(0): part of the ambient environment.
@@ -412,11 +416,16 @@ func schedLoop() {
 		// the token is free: is every task at rest?
 		stable := true
 		var ready []*gtask
-		alive, inop := 0, 0
+		alive, inop, parkedWaiting := 0, 0, 0
+		repoll := !idleSince.IsZero() && time.Since(idleSince) > time.Millisecond // nothing else can run: let pollers look again (real timers)
 		for _, t := range gs.tasks {
 			switch t.state {
 			case gReady:
-				ready = append(ready, t)
+				if t.waiting && t.waitGen == gs.gen && !repoll {
+					parkedWaiting++
+				} else {
+					ready = append(ready, t)
+				}
 				alive++
 			case gInOp:
 				if dump == nil {
@@ -450,8 +459,11 @@ func schedLoop() {
 			if idleSince.IsZero() {
 				idleSince = time.Now()
 			}
-			if time.Since(idleSince) > 2*time.Second {
+			if time.Since(idleSince) > 2*time.Second && parkedWaiting == 0 {
 				giveUpLocked(fmt.Sprintf("all %d live tasks blocked inside operations and nothing woke them for 2s", inop))
+			}
+			if time.Since(idleSince) > 20*time.Second {
+				giveUpLocked("tasks polling selects that never become ready")
 			}
 			gs.mu.Unlock()
 			continue
@@ -478,6 +490,8 @@ func schedLoop() {
 			t.state = gRunning
 		}
 		gs.holder = t
+		gs.gen++
+		t.waiting = false
 		gs.mu.Unlock()
 		t.wake <- struct{}{}
 	}
@@ -496,4 +510,64 @@ func giveUpLocked(why string) {
 		close(gs.drainCh)
 		gs.draining = nil
 	}
+}
+
+// Select is the poll order of one rewritten select statement (see genconc.go).
+type Select struct {
+	order []int
+	pos   int
+}
+
+// NewSelect draws the order in which the n communication cases are tried (identity when nothing else runs).
+func NewSelect(n int, hasDefault bool) *Select {
+	s := &Select{order: make([]int, n)}
+	for i := range s.order {
+		s.order[i] = i
+	}
+	gs.mu.Lock()
+	on := gs.on && !gs.gaveUp && !gs.off && len(gs.tasks) > 1
+	gs.mu.Unlock()
+	if on && T != nil && n > 1 {
+		for i := 0; i < n-1; i++ {
+			j := i + T.Choose(n-i, "select-order")
+			if j != i {
+				s.order[i], s.order[j] = s.order[j], s.order[i]
+				SelectDeviated++
+			}
+		}
+	}
+	return s
+}
+
+// Next is the next case to try, -1 when every case has been tried in this round.
+func (s *Select) Next() int {
+	if s.pos < len(s.order) {
+		i := s.order[s.pos]
+		s.pos++
+		return i
+	}
+	return -1
+}
+
+// Wait: no case was ready and there is no default. Give the token up until somebody else has run, then poll again.
+func (s *Select) Wait() {
+	s.pos = 0
+	gs.mu.Lock()
+	if !gs.on || gs.gaveUp || gs.off {
+		gs.mu.Unlock()
+		time.Sleep(50 * time.Microsecond) // a lone goroutine waiting for a timer or for the outside world
+		return
+	}
+	t := curTask()
+	if t == nil || gs.holder != t {
+		gs.mu.Unlock()
+		time.Sleep(50 * time.Microsecond)
+		return
+	}
+	t.state, t.wantOp = gReady, true
+	t.waiting, t.waitGen = true, gs.gen
+	gs.holder = nil
+	gs.mu.Unlock()
+	kick()
+	<-t.wake
 }
